@@ -36,7 +36,31 @@ let op_write args = match args with
     Printf.sprintf "%s wrote=%s" res (summ out)
   | _ -> "bad-args"
 
+(* a history of writes on one client: the model's writers are stateless, the schedule runs on across them *)
+let op_writes args = match args with
+  | [layer; msgs; sched] ->
+    let wr = if layer = "tpkt" then tpkt_write else x224_write in
+    let payload t = (match String.split_on_char ':' t with
+      | [len; seed] -> let len = int_of_string len and seed = int_of_string seed in List.init len (fun i -> n_of_int ((i * 7 + seed) mod 256))
+      | _ -> []) in
+    let rec go ms s acc all = match ms with
+      | [] -> (List.rev acc, all)
+      | m :: tl ->
+        let ((out, r), s') = wr (payload m) s in
+        let res = (match r with Ok _ -> "ok" | Err e -> "err:" ^ err_name e | Panic -> "panic" | Spin -> "spin") in
+        go tl s' (Printf.sprintf "%s:%d" res (List.length out) :: acc) (all @ out) in
+    let (rs, all) =
+      if layer = "tpkt" then
+        (* the fold the theorem C14_history is about *)
+        let (l, _) = tpkt_writes (List.map payload (String.split_on_char ',' msgs)) (parse_sched sched) in
+        (List.map (fun (out, r) -> Printf.sprintf "%s:%d" (match r with Ok _ -> "ok" | Err e -> "err:" ^ err_name e | Panic -> "panic" | Spin -> "spin") (List.length out)) l,
+         List.concat_map fst l)
+      else go (String.split_on_char ',' msgs) (parse_sched sched) [] [] in
+    Printf.sprintf "%s wrote=%s" (String.concat " " rs) (summ all)
+  | _ -> "bad-args"
+
 let () = main_loop (fun op args -> match op with
+  | "writes" -> op_writes args
   | "read" -> op_read args
   | "write" -> op_write args
   | _ -> "unknown-op:" ^ op)
